@@ -103,3 +103,48 @@ Theorem C18_dense_visitor :
     exists s1 s2, deval AR l W = Some s1 /\ deval AR r W = Some s2 /\ forall t, den_opt s1 t = den_opt s2 t.
 Proof. intros VS AR SN W tend l r. exact (visitor_laws AR SN W tend l r). Qed.
 Print Assumptions C18_dense_visitor.
+
+(* "in every monitor", the pastified online monitor included: a past-time formula that stands beside an operand with a future horizon is
+   delayed by the STL pastifier (once[H,H] around it, or H added to the bounds of a bounded once); two past-time formulas with the same
+   signal — the two sides of a past-time law — then have the same pastified signal at EVERY sample, the first H (warm-up) samples
+   included, alone and inside a conjunction / disjunction with any other operand g (seeded change C18_A5 folds the delay into the bounds
+   of a bounded historically: top instead of bot during the warm-up, so this theorem fails for the changed pastifier) *)
+From RV Require Import Pastify PastifyCorrect PastifyWarmup.
+Theorem C18_pastified_monitor :
+  forall (VS : Val) (AR : Arith VS) (w : trace) (l r g : formula),
+    past_only l = true -> past_only r = true -> is_const l = false -> is_const r = false ->
+    (forall n i, rho AR (fun _ _ => PStd) l w n i = rho AR (fun _ _ => PStd) r w n i) ->
+    forall H n i,
+      rho AR (fun _ _ => PStd) (pastify DelayOnce l H) w n i = rho AR (fun _ _ => PStd) (pastify DelayOnce r H) w n i /\
+      rho AR (fun _ _ => PStd) (pastify DelayOnce (And l g) H) w n i = rho AR (fun _ _ => PStd) (pastify DelayOnce (And r g) H) w n i /\
+      rho AR (fun _ _ => PStd) (pastify DelayOnce (Or l g) H) w n i = rho AR (fun _ _ => PStd) (pastify DelayOnce (Or r g) H) w n i.
+Proof.
+  intros VS AR w l r g Hl Hr Cl Cr E H n i. split.
+  - apply (past_law_pastified AR (fun _ _ => PStd) w (fun _ _ _ _ => eq_refl)); assumption.
+  - apply (past_law_pastified_in_context AR (fun _ _ => PStd) w (fun _ _ _ _ => eq_refl)); assumption.
+Qed.
+Print Assumptions C18_pastified_monitor.
+
+(* the instance the seeded change breaks: not once[a,b] p  and  historically[a,b] not p  beside any operand g *)
+Theorem C18_pastified_not_once_bounded :
+  forall (VS : Val) (AR : Arith VS) (w : trace) (a b : nat) (p g : formula), past_only p = true ->
+    forall H n i,
+      rho AR (fun _ _ => PStd) (pastify DelayOnce (And (Not (OnceT a b p)) g) H) w n i =
+      rho AR (fun _ _ => PStd) (pastify DelayOnce (And (HistT a b (Not p)) g) H) w n i.
+Proof.
+  intros VS AR w a b p g Hp H n i.
+  apply (C18_pastified_monitor VS AR w (Not (OnceT a b p)) (HistT a b (Not p)) g); try reflexivity; try exact Hp.
+  intros n' i'. apply (law_not_oncet AR (fun _ _ => PStd) w n').
+Qed.
+Print Assumptions C18_pastified_not_once_bounded.
+
+Example C18_pastified_nonvacuous :
+  (* (not once[0,1] (x0 >= 1)) and eventually[0,2] (x1 >= 0): delayed by 2; the first two outputs are bot on both sides *)
+  let p : @formula ExtZVal := Pred CGeq (Var 0) (Const (Fin 1)) in
+  let g : @formula ExtZVal := EvT 0 2 (Pred CGeq (Var 1) (Const (Fin 0))) in
+  let w := [[Fin 0; Fin 1; Fin (-1); Fin 2; Fin 0]; [Fin 1; Fin (-2); Fin 3; Fin 0; Fin 5]] in
+  map (rho ExtZArith (fun _ _ => PStd) (pastify DelayOnce (And (Not (OnceT 0 1 p)) g) 2) w 5) [0; 1; 2; 3; 4] =
+  map (rho ExtZArith (fun _ _ => PStd) (pastify DelayOnce (And (HistT 0 1 (Not p)) g) 2) w 5) [0; 1; 2; 3; 4] /\
+  rho ExtZArith (fun _ _ => PStd) (pastify DelayOnce (And (Not (OnceT 0 1 p)) g) 2) w 5 1 = NegInf /\
+  rho ExtZArith (fun _ _ => PStd) (pastify DelayOnce (And (Not (OnceT 0 1 p)) g) 2) w 5 3 <> NegInf.
+Proof. cbv zeta. repeat split; vm_compute; try reflexivity; discriminate. Qed.
